@@ -65,6 +65,15 @@ Fixpoint feed_chain (l : list feeder) (g f : Q) : list fedout * Q * Q :=
       (o :: os, g', f')
   end.
 
+(* (grass used, feed used) by each herd of the list, in list order *)
+Fixpoint used_chain (l : list feeder) (g f : Q) : list (Q * Q) :=
+  match l with
+  | [] => []
+  | s :: l' =>
+      let o := feed_the_species s g f in
+      (g - fo_grass o, f - fo_feed o) :: used_chain l' (fo_grass o) (fo_feed o)
+  end.
+
 (* quantities of one feeding, derived *)
 Definition delivered (s : feeder) (o : fedout) : Q := fd_req s - fo_bal o.
 Definition starving (s : feeder) (o : fedout) : Q := fd_cur s - fo_fed o.   (* calculate_starving_animals_after_feed *)
